@@ -69,6 +69,10 @@ def edge_program(rng):
     before = rng.random() < 0.5
     body = pre + [{'k': 'label', 'name': 'M'}]
     mid = movers(rng, rng.randint(0, 5))
+    if kind in (3, 5):
+        # T - M must not grow under compression: an align between the two labels may pad *more* in the compressed build
+        # (legitimately), which can push a just-representable difference out of range - not a defect (DESIGN.md 3.2)
+        mid = [it for it in mid if it['k'] != 'align']
     if before:
         items += [use] + body + mid
     else:
